@@ -428,14 +428,33 @@ fn cases_for_value(seed: u64, i: u64, thorough: bool) -> Vec<Case> {
     let two = matches!(driver, "jacobian" | "partial_hessian");
     let dim = if two { DIMS2[r.below(DIMS2.len())] } else { DIMS1[r.below(DIMS1.len())] };
     let dynlen = |r: &mut Rng| if r.chance(if thorough { 60 } else { 25 }) { [16, 17, 33, 64, 65][r.below(5)] } else { 1 + r.below(if thorough { 12 } else { 8 }) };
+    // lengths at and around powers of two up to 1025 (strip-mined or blocked code paths), where that is affordable: the
+    // inputs of a gradient, one side of a jacobian; and the empty input vector
+    let biglen = |r: &mut Rng| [127, 128, 129, 255, 257, 513, 1025][r.below(7)];
     let (mut m, mut n) = (1, 1);
     match driver {
-        "gradient" | "hessian" => n = static_len(dim).unwrap_or_else(|| dynlen(&mut r)),
+        "gradient" | "hessian" => {
+            n = static_len(dim).unwrap_or_else(|| dynlen(&mut r));
+            if dim == "Dyn" && r.chance(40) {
+                n = 0;
+            } else if dim == "Dyn" && driver == "gradient" && r.chance(12) {
+                n = biglen(&mut r);
+            }
+        }
         "third_partial_derivative_vec" => n = 1 + r.below(7),
         "jacobian" | "partial_hessian" => {
             let (a, b) = dim.split_once('x').unwrap();
             m = static_len(a).unwrap_or_else(|| dynlen(&mut r));
             n = static_len(b).unwrap_or_else(|| dynlen(&mut r));
+            if driver == "jacobian" && dim == "DynxDyn" && r.chance(15) {
+                if r.chance(500) {
+                    m = biglen(&mut r);
+                    n = 1 + r.below(3);
+                } else {
+                    n = biglen(&mut r);
+                    m = 1 + r.below(3);
+                }
+            }
         }
         _ => {}
     }
